@@ -1,10 +1,10 @@
 (* C17 -- the viewer session stays consistent under any sequence of edits.
-   Statements only; proofs in Lemmas/LC17.v and Lemmas/LC17u.v.  Model: Models/Viewer.v (check_value, every update_*
+   Statements only; proofs in Lemmas/LC17.v, Lemmas/LC17b.v and Lemmas/LC17u.v.  Model: Models/Viewer.v (check_value, every update_*
    callback, the up/down buttons, update_inputs, choose_pipeline / choose_units, the change-only firing of bokeh
    widgets), executed against the real main.py + SystemTab.py under a bokeh double on event sequences on every run.
    Every theorem holds for ANY text formatting functions and ANY float() parser (they are universally quantified). *)
 From Coq Require Import Reals List Bool String ZArith.
-From DHV Require Import NumOps RInst Fracs SlurryCalc SlurryState Viewer Units LC17 LC17u.
+From DHV Require Import NumOps RInst Fracs SlurryCalc SlurryState Viewer Units LC17 LC17u LC17b.
 Import ListNotations.
 Local Open Scope R_scope.
 
@@ -41,9 +41,10 @@ Proof. exact LC17.entry_reject. Qed.
 Print Assumptions C17_reject.
 
 (* frame: the callback of box w keeps the bounds, changes only its own model fields, and leaves the other pipelines,
-   the selection and the unit choice alone -- whatever the text and however deep the re-entry *)
+   the selection and the unit choice alone -- whatever the text and however deep the re-entry; its last conjunct says the
+   new state is reached from the old one by slurry-object operations, text rewrites and refreshes only *)
 Theorem C17_frame : forall (sf sq : bool) (fmt3 fmt0 : R -> string) (fmtZ : Z -> string) (parse : string -> option R)
-    (fuel : nat) (w : widget) (v : vstate (T:=R)), K v -> Rel w v (callback RN sf sq fmt3 fmt0 fmtZ parse fuel w v).
+    (fuel : nat) (w : widget) (v : vstate (T:=R)), K v -> Rel sf sq fmt3 fmtZ w v (callback RN sf sq fmt3 fmt0 fmtZ parse fuel w v).
 Proof. exact LC17.callback_rel. Qed.
 Print Assumptions C17_frame.
 
@@ -110,6 +111,35 @@ Theorem C17_units_SI :
   si_len = 1 /\ si_dia = 1000 /\ si_vol = 1 /\ si_flow = 1 /\ si_power = 1 /\ si_pressure = 9804139 / 1000000 /\ si_rot_speed = 60.
 Proof. exact LC17u.si_factors. Qed.
 Print Assumptions C17_units_SI.
+
+(* plotted data: the tables the viewer pushes to its data sources are read from the slurry object's cache.  [current]
+   says the cache is clean and holds exactly generate_curves of the CURRENT parameters and the CURRENT stored grading
+   (that the stored grading is itself the one a fresh object would build is C07_fresh); [coh] is the coherence of a
+   cache that may be dirty.  After every event -- accepted or rejected entry, button, fluid, units or pipeline switch
+   -- the shown tables are current, and every saved pipeline's slurry stays coherent, so switching back shows current
+   tables too.  main.py reads slurry.curves once at import (the initial figures): that is the ReadCurves below. *)
+Theorem C17_plots_current : forall (sf sq : bool) (fmt3 fmt0 : R -> string) (fmtZ : Z -> string) (parse : string -> option R)
+    (v : vstate (T:=R)) (e : event), G v -> Qv (coh sf sq) v -> current sf sq (slurry v) ->
+  current sf sq (slurry (fire RN sf sq fmt3 fmt0 fmtZ parse v e)) /\ Qv (coh sf sq) (fire RN sf sq fmt3 fmt0 fmtZ parse v e).
+Proof. exact LC17b.fire_current. Qed.
+Print Assumptions C17_plots_current.
+
+Theorem C17_plots_current_session : forall (sf sq : bool) (fmt3 fmt0 : R -> string) (fmtZ : Z -> string)
+    (parse : string -> option R) (v : vstate (T:=R)) (es : list event), G v -> Qv (coh sf sq) v ->
+  Forall (fun v' => current sf sq (slurry v') /\ Qv (coh sf sq) v')
+         (run_events RN sf sq fmt3 fmt0 fmtZ parse (sdo RN sf sq v ReadCurves) es).
+Proof. exact LC17b.session_current. Qed.
+Print Assumptions C17_plots_current_session.
+
+(* a refresh (update_source_data) of a coherent slurry always ends current, whatever was cached before *)
+Theorem C17_refresh_current : forall (sf sq : bool) (fmt3 : R -> string) (fmtZ : Z -> string) (u : vstate (T:=R)),
+  K u -> coh sf sq (slurry u) -> current sf sq (slurry (update_source_data RN sf sq fmt3 fmtZ u)).
+Proof. exact LC17b.usd_current. Qed.
+Print Assumptions C17_refresh_current.
+
+Theorem C17_plots_nonvacuous : forall sf sq, exists v : vstate (T:=R), G v /\ Qv (coh sf sq) v.
+Proof. exact LC17b.coh_example. Qed.
+Print Assumptions C17_plots_nonvacuous.
 
 (* the premises are satisfiable: the shipped test pipeline's start state *)
 Theorem C17_nonvacuous : exists v : vstate (T:=R), G v /\ CvLoAll v.
